@@ -248,6 +248,8 @@ class ConcRunner:
         out["schedule"] = list(ctrl.schedule)
         out["trace_len"] = len(ctrl.trace)
         out["edges"] = sorted(ctrl.edges)
+        out["wait_violations"] = list(ctrl.wait_violations)
+        out["left_holding"] = [(t.name, list(t.held)) for t in ctrl.threads if t.finished and t.held and not out["deadlock"]]
         out["max_parallel"] = self.max_parallel
         out["self_overlap"] = self.self_overlap
         try:
